@@ -14,8 +14,8 @@ import warnings
 import numpy as np
 
 from sim.kernel import EventLog, PlanRng, Violation, call, sig
-from sim.seams import (LineInterrupter, SimInterrupt, SolveSeam, ambient_perturb, import_dreye,
-                       own_entropy)
+from sim.seams import (LineInterrupter, SimInterrupt, SolveSeam, WarningsAsErrors, ambient_perturb,
+                       import_dreye, own_entropy)
 
 ID = "C11"
 PANEL_PER_MODE = 2
@@ -61,8 +61,8 @@ def setup():
 
 def batches(tier):
     if tier == "quick":
-        return [("clean", 420), ("faults", 160)]
-    return [("clean", 24000), ("faults", 6000)]
+        return [("clean", 420), ("faults", 160), ("werror", 120)]
+    return [("clean", 24000), ("faults", 6000), ("werror", 4000)]
 
 
 # ----------------------------------------------------------------------------
@@ -79,10 +79,14 @@ def generate(rs, mode, tier, index):
     A = np.trapezoid(F[:, None, :] * S[None, :, :], dx=1.0, axis=-1)
     S = sig(S * rng.uniform(1.0, 3.0) / max(A.mean(), 1e-9))
     A = np.trapezoid(F[:, None, :] * S[None, :, :], dx=1.0, axis=-1)
-    Kkind = rng.choice(["one", "vector"])
-    K = 1.0 if Kkind == "one" else sig(rng.uniform(0.5, 2.0, n_rec))
+    Kkind = rng.choice(["one", "vector", "matrix"], p=[0.4, 0.4, 0.2])
+    Km = np.diag(rng.uniform(0.6, 1.8, n_rec)) + rng.uniform(0.0, 0.15, (n_rec, n_rec))
+    K = {"one": 1.0, "vector": sig(rng.uniform(0.5, 2.0, n_rec)), "matrix": sig(Km)}[Kkind]
     base_kind = rng.choice(["zero", "vector"], p=[0.6, 0.4])
     baseline = 0.0 if base_kind == "zero" else sig(rng.uniform(0.05, 0.5, n_rec))
+    if Kkind == "matrix" and base_kind == "zero":
+        baseline = np.zeros(n_rec)      # a matrix K needs a per-receptor baseline (see DESIGN 8)
+    w = sig(rng.uniform(0.5, 2.0, n_rec)) if rng.coin(0.3) else None
     n_layers = rng.integers(1, 3)
     mask = None
     mask_cls = "none"
@@ -107,21 +111,27 @@ def generate(rs, mode, tier, index):
         lbp = sig(rng.uniform(0.0, 0.15, n_layers))
         ubp = sig(rng.uniform(0.7, 1.0, n_layers))
     n = rng.integers(max(4, n_layers + 2), 30)
+    if n_rec >= n_layers + 2 and rng.coin(0.15):
+        n = n_rec        # as many samples as receptors: a shape coincidence helpers may trip on
     # targets: planted factorisation + noise, or arbitrary positive captures
-    Kv = np.broadcast_to(np.asarray(K, float), (n_rec,))
+    Kraw = np.asarray(K, float)
+
+    def applyK(M):
+        return (M @ Kraw.T) if Kraw.ndim == 2 else M * Kraw
+
     bv = np.broadcast_to(np.asarray(baseline, float), (n_rec,))
     if rng.coin(0.7):
         Xp = rng.uniform(0, 1, (n_layers, n_src)) * ub
         if mask is not None:
             Xp = Xp * mask
         Pp = rng.uniform(0.05, 0.95, (n, n_layers))
-        B = (Pp @ Xp @ A.T + bv) * Kv
+        B = applyK(Pp @ Xp @ A.T + bv)
         B = B * (1 + 0.05 * rng.g.normal(size=B.shape))
         tk = "planted"
     else:
-        B = (rng.uniform(0.2, 1.0, (n, n_rec)) * (A @ ub) * rng.uniform(0.1, 0.8) + bv) * Kv
+        B = applyK(rng.uniform(0.2, 1.0, (n, n_rec)) * (A @ ub) * rng.uniform(0.1, 0.8) + bv)
         tk = "arbitrary"
-    B = sig(np.maximum(B, bv * Kv * 1.02 + 1e-3))
+    B = sig(np.maximum(B, applyK(bv[None])[0] * 1.02 + 1e-3))
     sub = rng.choice([None, "fast", "frac"], p=[0.5, 0.2, 0.3])
     subsample = None if sub is None else ("fast" if sub == "fast" else
                                           float(sig(rng.uniform(0.5, 0.9), 3)))
@@ -134,8 +144,9 @@ def generate(rs, mode, tier, index):
         layers_arg = "explicit"
     W = sig(rng.uniform(0.5, 2.0, (n, n_rec))) if rng.coin(0.25) else None
     plan = {"check": ID, "run_seed": rs, "mode": mode,
-            "sys": {"F": F, "S": S, "K": K, "baseline": baseline, "lb": lb, "ub": ub,
+            "sys": {"F": F, "S": S, "K": K, "baseline": baseline, "lb": lb, "ub": ub, "w": w,
                     "n_rec": n_rec, "n_src": n_src, "Kkind": Kkind, "base_kind": base_kind},
+            "init_iter": rng.choice([1000, 1000, 3]),
             "B": B, "W": W, "target_kind": tk,
             "n_layers": n_layers, "layers_arg": layers_arg, "mask": mask, "mask_cls": mask_cls,
             "equal_l1": rng.coin(0.55), "lbp": lbp, "ubp": ubp, "pb": pb,
@@ -143,6 +154,14 @@ def generate(rs, mode, tier, index):
             "max_iter": rng.integers(2, 12),
             "solver": rng.choice(["SCS", "CLARABEL"], p=[0.6, 0.4]),
             "perturb": rng.integers(1, 10 ** 6)}
+    if mode == "werror":
+        # the only execution runs under -W error with a capped SCS: any inaccurate solve makes
+        # cvxpy warn, i.e. raise; the call must raise or return a fully valid result
+        plan["solver"] = "SCS"
+        plan["scs_max_iters"] = rng.choice([40, 100, 150, 250, 600])
+        plan["subsample"] = rng.choice([None, None, plan["subsample"]])
+        plan["init_iter"] = 1000
+        plan["max_iter"] = rng.choice([6, 15, 40])     # let the loop end on its tolerances
     if mode == "faults":
         plan["fault"] = {"kind": "solver_error", "k": rng.integers(0, 30),
                          "frac": float(sig(rng.random(), 4))}
@@ -161,6 +180,10 @@ def run_decomp(plan, est, seed=None):
     kw = {}
     if plan["solver"] != "SCS":
         kw["solver"] = plan["solver"]
+    if plan.get("scs_max_iters"):
+        kw["max_iters"] = plan["scs_max_iters"]
+    if plan.get("init_iter", 1000) != 1000:
+        kw["init_iter"] = plan["init_iter"]
     n_layers_arg = plan["n_layers"] if plan.get("layers_arg", "explicit") == "explicit" else None
     return est.fit_decomposition(
         plan["B"], n_layers=n_layers_arg, mask=plan["mask"], lbp=plan["lbp"],
@@ -170,7 +193,8 @@ def run_decomp(plan, est, seed=None):
 
 def build(plan):
     s = plan["sys"]
-    est = _dreye.ReceptorEstimator(s["F"], domain=1.0, K=s["K"], baseline=s["baseline"])
+    kw = {} if s.get("w") is None else {"w": s["w"]}
+    est = _dreye.ReceptorEstimator(s["F"], domain=1.0, K=s["K"], baseline=s["baseline"], **kw)
     est.register_system(s["S"], lb=s["lb"], ub=s["ub"])
     if plan["W"] is not None:
         est.register_targets(plan["B"], plan["W"])
@@ -180,11 +204,23 @@ def build(plan):
 def model_terms(plan):
     s = plan["sys"]
     A = np.trapezoid(s["F"][:, None, :] * s["S"][None, :, :], dx=1.0, axis=-1)
-    Kv = np.broadcast_to(np.asarray(s["K"], float), (s["n_rec"],))
+    Kraw = np.asarray(s["K"], float)
     bv = np.broadcast_to(np.asarray(s["baseline"], float), (s["n_rec"],))
-    KA = A * Kv[:, None]
-    Kb = Kv * bv
-    return KA, Kb
+    if Kraw.ndim == 2:
+        return Kraw @ A, Kraw @ bv
+    Kv = np.broadcast_to(Kraw, (s["n_rec"],))
+    return A * Kv[:, None], Kv * bv
+
+
+def weights_of(plan):
+    """(n_samples x n_receptors) weights as documented: per-sample W if registered, else the
+    constructor's per-receptor w, else ones."""
+    if plan["W"] is not None:
+        return plan["W"]
+    w = plan["sys"].get("w")
+    if w is not None:
+        return np.broadcast_to(np.asarray(w, float)[None], plan["B"].shape)
+    return np.ones_like(plan["B"])
 
 
 def independent_last_factor(plan, X, P, which):
@@ -194,7 +230,7 @@ def independent_last_factor(plan, X, P, which):
     KA, Kb = model_terms(plan)
     s = plan["sys"]
     B = plan["B"] - Kb
-    W = np.ones_like(B) if plan["W"] is None else plan["W"]
+    W = weights_of(plan)
     if which == "X":
         V = cp.Variable(X.shape)
         cons = [V >= (0 if s["lb"] is None else np.atleast_2d(s["lb"])), V <= np.atleast_2d(s["ub"])]
@@ -230,8 +266,21 @@ def execute(plan):
     iters_run = 0
     worst_rise = -np.inf
     try:
-        with SolveSeam() as seam:
-            out = call(run_decomp, plan, est)
+        if plan["mode"] == "werror":
+            with WarningsAsErrors(), SolveSeam() as seam:
+                out = call(run_decomp, plan, est)
+            if not out.ok:
+                # raising is the honest outcome of an inaccurate solve under -W error
+                bump("fault:warnings_as_errors")
+                bump("werror_outcome:" + out.value)
+                log.add("run1", out)
+                return {"violation": None, "digest": log.digest(), "steps": seam.count,
+                        "counters": counters, "cov": [("werror", "raised", plan["scs_max_iters"])],
+                        "nontrivial": True}
+            bump("werror_outcome:returned")
+        else:
+            with SolveSeam() as seam:
+                out = call(run_decomp, plan, est)
         steps += seam.count
         log.add("run1", out, [e.as_tuple() for e in seam.events])
         if not out.ok and out.value not in ("SolverError", "RuntimeError"):
@@ -334,7 +383,7 @@ def execute(plan):
                             amount=v)
         # ---- last factor optimal given the other --------------------------------------------
         which = "P" if plan["subsample"] else "X"
-        W = np.ones_like(plan["B"]) if plan["W"] is None else plan["W"]
+        W = weights_of(plan)
         got = float(np.linalg.norm(W * (P @ X @ KA.T - (plan["B"] - Kb)), "fro"))
         r_best = call(independent_last_factor, plan, X, P, which)
         best = r_best.value if r_best.ok else np.inf
@@ -442,7 +491,7 @@ def candidates(plan):
         for start in range(0, n, size):
             keep = [i for i in range(n) if not (start <= i < start + size)]
             # stay inside the generator's envelope (NMF needs more rows than layers)
-            if len(keep) < max(4, plan["n_layers"] + 2):
+            if len(keep) < plan["n_layers"] + 2:
                 continue
             if isinstance(plan["subsample"], float) and \
                     int(len(keep) * plan["subsample"]) < plan["n_layers"] + 1:
